@@ -17,7 +17,7 @@ RegistryBijective == /\ Cardinality(Registry) = 18
                      /\ \A a, b \in Registry : (a[1] = b[1] \/ a[2] = b[2]) => a = b
 
 LenClasses == {"negative", "zero", "small", "max", "max+1", "huge"}
-BodyClasses == {"valid", "valid-unknown-fields", "wrong-shape", "invalid-json", "truncated", "trailing"}
+BodyClasses == {"valid", "valid-unknown-fields", "wrong-shape", "invalid-json", "truncated", "trailing", "null"}
 LenOf(lc, n) == CASE lc = "negative" -> -1 [] lc = "zero" -> 0 [] lc = "small" -> n [] lc = "max" -> MaxLen
                   [] lc = "max+1" -> MaxLen + 1 [] lc = "huge" -> 2000000000
 
@@ -28,6 +28,7 @@ Decode(registered, lc, bc, n, avail) ==
   ELSE IF lc \in {"negative", "max+1", "huge"} THEN [ok |-> FALSE, consumed |-> 9]
   ELSE IF lc = "zero" THEN [ok |-> FALSE, consumed |-> 9]           \* an empty body is not a JSON value
   ELSE IF bc = "truncated" THEN [ok |-> FALSE, consumed |-> 9 + avail]
+  \* the JSON literal null is a well-formed JSON value but denotes no message: an error, never a nil message
   ELSE [ok |-> bc \in {"valid", "valid-unknown-fields", "trailing"}, consumed |-> 9 + LenOf(lc, n)]
 \* never asks the stream for more than the bounded length at once
 AllocBound == MaxLen
